@@ -17,6 +17,8 @@ def gen_case(rng, tier, want_acts=True, allow_defer=True, long_run=False, hosts_
     spec['acts'] = {}     # no posts during start_at: the start snapshot of a threaded object must be stable
     if rng.random() < 0.3:
       cfg['pre_subscribe'] = rng.choice(['fifo', 'lifo'])     # the object subscribes to a signal before start_at
+    if rng.random() < 0.2:
+      cfg['pre_publish'] = True                               # ... and / or publishes before start_at
   start = rng.randrange(spec['n'])
   n_ops = n_ops or (rng.randint(120, 400) if long_run else rng.randint(5, 40))
   sigs = spec['sigs'][:-1]
